@@ -3,6 +3,8 @@ From V.gen Require Consts.
 From V.C03 Require Import Model Msg Proofs UviProofs LsProofs WebRtc WebRtcProofs Fallback.
 From V.C03 Require Import MsgRef MsgProofs MsgInv Chan Dir SimD SimL SimSys BytesThm LazyThm.
 From V.C03 Require Import Work Work2 Live Timed TimedProofs Survivor NegOps LazyBytes Compose Sub SubProofs.
+From V.C03 Require Import Peer PeerTie RefDiff.
+From V.C03 Require Glue.
 Import ListNotations.
 Open Scope N_scope.
 From V.C03 Require Import Properties.
@@ -306,3 +308,85 @@ Check (C03_substream_fallback_listener :
       (wf_cfg cfgL -> report cfgL n = spec cfgL n)).
 Check (C03_sub_oracle_accepts_model :
   forall case : list N, ok_sub case (run_sub case) = true).
+Check (C03_peer_dialer_vs_any_legal_listener :
+  forall (ds : list name) (S : name -> bool) (rs : list msg) (r : option name)
+         (pay dpay : bytes) (rsc wsc : list N) (evs : list eev),
+    Forall wfn ds -> LegalL S ds rs r ->
+    let s := erun evs (einit (d_task ds dpay) rsc wsc (FR (MHeader :: rs) ++ opt_pay r pay)) in
+    (forall i, t_res (e_t s) = (0, i) ->
+       exists p, first_supported ds S i p /\ r = Some p /\
+         t_read (e_t s) ++ p_buf (e_in s) ++ e_rem s = pay /\
+         (t_done (e_t s) = true ->
+            t_end (e_t s) = 0 /\ t_got (e_t s) = pay /\ p_buf (e_in s) = [] /\ e_rem s = [] /\
+            p_closed (e_out s) = true /\
+            p_buf (e_out s) = FR (MHeader :: map MProto (firstn (N.to_nat i + 1) ds)) ++ dpay)) /\
+    (forall code i, t_res (e_t s) = (code, i) -> code <> 0 -> code <> 99 ->
+       r = None /\ Forall (unsupS S) ds)).
+Check (C03_peer_listener_vs_any_legal_dialer :
+  forall (ls ps : list name) (r : option name) (silent : bool)
+         (pay lpay : bytes) (rsc wsc : list N) (evs : list eev),
+    Forall wfn ps -> LegalD (supported ls) ps r -> (silent = true -> ps = []) ->
+    let s := erun evs (einit (l_task ls lpay) rsc wsc
+                         (FR (if silent then [] else MHeader :: map MProto ps) ++ opt_pay r pay)) in
+    (forall j, t_res (e_t s) = (0, j) ->
+       exists n, accepted ls ps j n /\ r = Some n /\
+         t_read (e_t s) ++ p_buf (e_in s) ++ e_rem s = pay /\
+         (t_done (e_t s) = true ->
+            t_end (e_t s) = 0 /\ t_got (e_t s) = pay /\ p_buf (e_in s) = [] /\ e_rem s = [] /\
+            p_closed (e_out s) = true /\
+            exists pre, ps = pre ++ [n] /\
+              p_buf (e_out s) = FR (MHeader :: nas pre ++ [MProto n]) ++ lpay)) /\
+    (forall code j, t_res (e_t s) = (code, j) -> code <> 0 -> code <> 99 -> r = None)).
+Check (C03_peer_dialer_terminates :
+  forall (ds : list name) (dpay : bytes) (rsc wsc : list N) (stream : bytes) (K : nat) (evs : list eev),
+    let s0 := einit (d_task ds dpay) rsc wsc stream in
+    fairE K evs -> PhiD s0 < N.of_nat K -> t_done (e_t (erun evs s0)) = true).
+Check (C03_peer_listener_terminates :
+  forall (ls : list name) (lpay : bytes) (rsc wsc : list N) (stream : bytes) (K : nat) (evs : list eev),
+    let s0 := einit (l_task ls lpay) rsc wsc stream in
+    fairE K evs -> PhiL s0 < N.of_nat K -> t_done (e_t (erun evs s0)) = true).
+Check (C03_peer_deliveries_are_bytes :
+  forall (k : nat) (s : esys), (k <= length (e_rem s))%nat ->
+    erun (repeat EvByte k) s = push_k s k).
+Check (C03_peer_own_wire_legal :
+  (forall ds S i p, first_supported ds S i p -> LegalD S (firstn (N.to_nat i + 1) ds) (Some p)) /\
+  (forall ls ps j n, accepted ls ps j n ->
+     exists pre, ps = pre ++ [n] /\ LegalL (supported ls) ps (nas pre ++ [MProto n]) (Some n))).
+Check (C03_peer_oracle_wire_legal :
+  forall c : ncase, c_ds c <> [] ->
+    let S := supported (c_ls c) in
+    let r := agreed S (c_ds c) in
+    r = first_common (c_ds c) (c_ls c) /\
+    exists ps, LegalD S ps r /\ (exists rest, c_ds c = ps ++ rest) /\
+      LegalL S (c_ds c) (resp S (c_ds c)) r /\
+      Glue.legal_dialer_wire c = FR (MHeader :: map MProto ps) ++ opt_pay r (c_dpay c) /\
+      Glue.legal_listener_wire c = FR (MHeader :: resp S (c_ds c)) ++ opt_pay r (c_lpay c)).
+Check (C03_peer_reference_dialer_wire_vs_listener :
+  forall (c : ncase) (rsc wsc : list N) (evs : list eev), c_ds c <> [] -> Forall wfn (c_ds c) ->
+    let s := erun evs (einit (l_task (c_ls c) (c_lpay c)) rsc wsc (Glue.legal_dialer_wire c)) in
+    (forall j, t_res (e_t s) = (0, j) ->
+       exists n, first_common (c_ds c) (c_ls c) = Some n /\ lidx 0 (c_ls c) n = Some j /\
+         t_read (e_t s) ++ p_buf (e_in s) ++ e_rem s = c_dpay c /\
+         (t_done (e_t s) = true -> t_end (e_t s) = 0 /\ t_got (e_t s) = c_dpay c /\
+            p_buf (e_in s) = [] /\ e_rem s = [])) /\
+    (forall code j, t_res (e_t s) = (code, j) -> code <> 0 -> code <> 99 ->
+       first_common (c_ds c) (c_ls c) = None)).
+Check (C03_peer_reference_listener_wire_vs_dialer :
+  forall (c : ncase) (rsc wsc : list N) (evs : list eev), c_ds c <> [] -> Forall wfn (c_ds c) ->
+    let s := erun evs (einit (d_task (c_ds c) (c_dpay c)) rsc wsc (Glue.legal_listener_wire c)) in
+    (forall i, t_res (e_t s) = (0, i) ->
+       exists p, first_common (c_ds c) (c_ls c) = Some p /\
+         Glue.find_idx (Glue.supported_b (c_ls c)) (c_ds c) 0 = Some (i, p) /\
+         t_read (e_t s) ++ p_buf (e_in s) ++ e_rem s = c_lpay c /\
+         (t_done (e_t s) = true -> t_end (e_t s) = 0 /\ t_got (e_t s) = c_lpay c /\
+            p_buf (e_in s) = [] /\ e_rem s = [])) /\
+    (forall code i, t_res (e_t s) = (code, i) -> code <> 0 -> code <> 99 ->
+       first_common (c_ds c) (c_ls c) = None)).
+Check (C03_ref_header_difference :
+  (forall p hr m, d_react p hr m <> d_react_ref p m -> hr = true /\ m = MHeader) /\
+  (forall ds S m, RD ds S m -> mstep_d_ref m = mstep_d m) /\
+  (forall S ps rs r, LegalL S ps rs r -> ~ In MHeader rs)).
+Check (C03_ref_name_difference :
+  (forall p, text_name p = true ->
+     decode_line_ref (encode_msg (MProto p)) = decode_msg (encode_msg (MProto p))) /\
+  (forall a b c : bytes, forallb (fun x => x <? 128) (a ++ b ++ c) = true -> text_name b = true)).
